@@ -140,19 +140,19 @@ def showYields (recs : List Rec) (calls : List String) (ys : List (Nat × Name))
   s!"recs={commaOr (recs.map (fun r => showRec r.dtype r.name))} reclens={commaOr (recs.map (fun r => toString (reclen r)))} calls={commaOr calls} yields={commaOr (ys.map (fun y => showRec y.1 y.2))} rel={if ys.isEmpty then "-" else String.join (ys.map (fun y => if isRelRef y.2 then "1" else "0"))}"
 
 /-- open the directory the way `Directory::open` does and hand its records to `k` -/
-def withDir (st : FS) (p : Bytes) (recs : List Rec) (k : Unit → String) : String :=
+def withDir (exact : Bool) (st : FS) (p : Bytes) (recs : List Rec) (k : Unit → String) : String :=
   match openat st p (O_CLOEXEC ||| O_RDONLY) with
   | (_, .error .unmodelled) => "unmodelled"
   | (_, .error e) => "err " ++ showE e
   | (st0, .ok h) =>
     match getAt st0.root h.loc with
-    | some (.dir es) => if !sameRecSet (dirRecs es) recs then "model-dir-mismatch" else k ()
+    | some (.dir es) => if !sameRecSet (dirRecsOn exact es) recs then "model-dir-mismatch" else k ()
     | some _ => "err 20"
     | none => "unmodelled"
 
 /-- the kernel's own split of the stream -/
-def opReaddir (st : FS) (p : Bytes) (recs : List Rec) : String :=
-  withDir st p recs fun _ =>
+def opReaddir (exact : Bool) (st : FS) (p : Bytes) (recs : List Rec) : String :=
+  withDir exact st p recs fun _ =>
     let (res, calls, ys, _) := drain (ReadDir.new (kernelDents 512 recs.length recs)) [] []
     if res != "ok" then res else "ok " ++ showYields recs calls ys
 
@@ -183,8 +183,8 @@ def showItem : Item → String
   | .entry _ _ => "y"
 
 /-- the iterator over a scripted split; after its first `None`/`Err` three more `next` calls -/
-def opReaddirSplit (st : FS) (p : Bytes) (recs : List Rec) (answers : List Dents) : String :=
-  withDir st p recs fun _ =>
+def opReaddirSplit (exact : Bool) (st : FS) (p : Bytes) (recs : List Rec) (answers : List Dents) : String :=
+  withDir exact st p recs fun _ =>
     let (res, calls, ys, s') := drain (ReadDir.new answers) [] []
     if res == "panic" then res
     else
@@ -198,7 +198,8 @@ def parseOpts (s : String) : Option Opts :=
 
 def withDump (st : FS) (res : String) : String := res ++ " | " ++ dumpSandbox st
 
-def step (s : Option FS) (line : String) : Option FS × String :=
+/-- `exact` = the file system under the sandbox fills in `d_type` (false: `drv_c14 --dtype-unknown`) -/
+def step (exact : Bool) (s : Option FS) (line : String) : Option FS × String :=
   match Drv.words line, s with
   | ["init", p], _ =>
     match Drv.unhex p with
@@ -277,18 +278,18 @@ def step (s : Option FS) (line : String) : Option FS × String :=
   | ["rmall", p], some st =>
     match Drv.unhex p with
     | some p =>
-      let (st', r) := removeDirAll st p
+      let (st', r) := removeDirAllOn exact st p
       (some st', withDump st' (showRes r))
     | none => (s, "bad-op")
   | ["readdir", p, recs], some st =>
     match Drv.unhex p, parseRecs recs with
-    | some p, some recs => (s, withDump st (opReaddir st p recs))
+    | some p, some recs => (s, withDump st (opReaddir exact st p recs))
     | _, _ => (s, "bad-op")
   | ["readdirs", p, recs, split], some st =>
     match Drv.unhex p, parseRecs recs with
     | some p, some recs =>
       match parseSplit split recs with
-      | some answers => (s, withDump st (opReaddirSplit st p recs answers))
+      | some answers => (s, withDump st (opReaddirSplit exact st p recs answers))
       | none => (s, "bad-op")
     | _, _ => (s, "bad-op")
   | ["opts", bits], _ =>
@@ -297,4 +298,4 @@ def step (s : Option FS) (line : String) : Option FS × String :=
     | none => (s, "bad-op")
   | _, _ => (s, "bad-op")
 
-def main : IO Unit := Drv.run step none
+def main (args : List String) : IO Unit := Drv.run (step (!args.contains "--dtype-unknown")) none
